@@ -7,16 +7,46 @@
 From Coq Require Import List String Bool Arith.
 From Helm Require Import Engine.Types Engine.Eff Engine.Ops Engine.Skeleton Engine.SkeletonExpected
                          Engine.SkeletonModel Engine.SkeletonProofs Engine.SkeletonProofsAll Engine.SkeletonCover
-                         Gen.ActionSkeleton.
+                         Engine.SkeletonNorm Engine.SkeletonNormProofs Engine.SkeletonInlineProofs Engine.SkeletonNormModel
+                         Engine.SkeletonSource
+                         Engine.SkeletonSourceProofs Gen.ActionSkeleton.
 Import ListNotations.
 Local Open Scope string_scope.
 
-(* 1. What the translator read out of the Go source on this run is, node for node, the
-      expected skeleton (every effectful call, in evaluation order, every condition on an
-      option flag, every error branch with the kind of its return, every loop). *)
-Theorem skeleton_matches_source : skeleton = expected.
-Proof. reflexivity. Qed.
+(* 1. What the translator read out of the Go source on this run has, for each of the four entry
+      points (and their wrappers, and Storage.Create), the same NORMAL FORM as the expected
+      skeleton: all calls of tracked and followed functions inlined, then compared node for
+      node (every effectful call, in evaluation order, every condition on an option flag, every
+      error branch with the kind of its return, every loop) modulo the rewrites of
+      Engine/SkeletonNorm.v, each of which is exact for the path semantics (1b). *)
+Theorem skeleton_matches_source : norm_roots skeleton = norm_roots expected.
+Proof. exact source_normal_form. Qed.
 Print Assumptions skeleton_matches_source.
+
+(* nothing the translator could not classify (Unknown), no call that does not resolve and no
+   recursion is reachable from an entry point of the source skeleton *)
+Theorem skeleton_source_live : forallb (fun p => live (snd p)) (norm_roots skeleton) = true.
+Proof. exact source_roots_live. Qed.
+Print Assumptions skeleton_source_live.
+
+(* 1b. The normal form has exactly the paths of the skeleton it is computed from, for every
+       input, loop bound and option assignment (naccepts: the abstract interpretation of
+       Engine/Skeleton.v by structural recursion on the inlined tree) ... *)
+Theorem skeleton_norm_sound :
+  forall (s : nsk) (inp : list kind) (fuel : nat) (env : string -> bool),
+    naccepts (norm s) inp fuel env = naccepts s inp fuel env.
+Proof. exact norm_sound. Qed.
+Print Assumptions skeleton_norm_sound.
+
+(* ... so the source skeleton and the expected one have the same paths from every root *)
+Theorem skeleton_source_same_paths :
+  forall entry, In entry roots ->
+    forall inp fuel env,
+      naccepts (inline_root skeleton entry) inp fuel env = naccepts (inline_root expected entry) inp fuel env.
+Proof.
+  intros entry H. exact (same_normal_form_same_paths skeleton expected entry (source_root_normal_form entry H)).
+Qed.
+Print Assumptions skeleton_source_same_paths.
 
 (* the expected skeleton has no node the translator could not classify, and every function it
    calls is tracked *)
@@ -55,6 +85,87 @@ Theorem model_failures_follow_skeleton :
       follows expected rexpected (mkScen o fl l false) [n] = true.
 Proof. exact model_failures_follow_skeleton_lemma. Qed.
 Print Assumptions model_failures_follow_skeleton.
+
+(* 2a', 2b'. The same two statements for the skeleton extracted from /repo on this run, proved by
+        computation against it (not through 1.): rskeleton = resolve_table skeleton. *)
+Theorem model_follows_source_skeleton :
+  forall (o : opk) (fl : flags) (l : list release) (ad : bool),
+    In fl (flag_space o) -> In l ledgers ->
+    follows skeleton rskeleton (mkScen o fl l ad) [] = true.
+Proof. exact model_follows_source_lemma. Qed.
+Print Assumptions model_follows_source_skeleton.
+
+Theorem model_failures_follow_source_skeleton :
+  forall (o : opk) (fl : flags) (l : list release),
+    In fl (fail_flag_space o) -> In l (fail_ledgers o) ->
+    follows skeleton rskeleton (mkScen o fl l false) [] = true /\
+    forall n, n < List.length (model_trace (mkScen o fl l false) []) ->
+      follows skeleton rskeleton (mkScen o fl l false) [n] = true.
+Proof. exact model_failures_follow_source_lemma. Qed.
+Print Assumptions model_failures_follow_source_skeleton.
+
+Theorem rskeleton_is_skeleton : rskeleton = resolve_table skeleton.
+Proof. exact rskeleton_is. Qed.
+Print Assumptions rskeleton_is_skeleton.
+
+(* 2d. The transfer route, without looking at the source table again: a run the checker accepts
+       on the expected table is a path of the inlined expected entry function under nx
+       (Engine/SkeletonInlineProofs.v: raccepts_naccepts), hence of its normal form (1b), hence
+       -- by 1 -- of the inlined entry function of the skeleton extracted from /repo on this
+       run.  So 2a, 2b and 2c hold for the source skeleton under nx (FUEL rounds per loop). *)
+Theorem model_follows_inlined_source_skeleton :
+  forall (o : opk) (fl : flags) (l : list release) (ad : bool),
+    In fl (flag_space o) -> In l ledgers ->
+    naccepts (inline_root skeleton (entry_of o)) (model_trace (mkScen o fl l ad) []) FUEL (env_of fl) = true.
+Proof.
+  intros o fl l ad H1 H2.
+  exact (follows_transfer expected skeleton rexpected rexpected_is (mkScen o fl l ad) []
+           (source_root_normal_form _ (entry_is_root o)) (model_follows_skeleton_lemma o fl l ad H1 H2)).
+Qed.
+Print Assumptions model_follows_inlined_source_skeleton.
+
+Theorem model_failures_follow_inlined_source_skeleton :
+  forall (o : opk) (fl : flags) (l : list release),
+    In fl (fail_flag_space o) -> In l (fail_ledgers o) ->
+    forall n, n < List.length (model_trace (mkScen o fl l false) []) ->
+      naccepts (inline_root skeleton (entry_of o)) (model_trace (mkScen o fl l false) [n]) FUEL (env_of fl) = true.
+Proof.
+  intros o fl l H1 H2 n Hn.
+  exact (follows_transfer expected skeleton rexpected rexpected_is (mkScen o fl l false) [n]
+           (source_root_normal_form _ (entry_is_root o))
+           (proj2 (model_failures_follow_skeleton_lemma o fl l H1 H2) n Hn)).
+Qed.
+Print Assumptions model_failures_follow_inlined_source_skeleton.
+
+Theorem model_follows_inlined_source_skeleton_all_flags :
+  forall (o : opk) (a c k r h d co tk : bool),
+    naccepts (inline_root skeleton (entry_of o))
+             (model_trace (mkScen o (mkFlags a c k r 2 h d co tk 0) (main_ledger o) false) []) FUEL
+             (env_of (mkFlags a c k r 2 h d co tk 0)) = true.
+Proof.
+  intros o a c k r h d co tk.
+  exact (follows_transfer expected skeleton rexpected rexpected_is
+           (mkScen o (mkFlags a c k r 2 h d co tk 0) (main_ledger o) false) []
+           (source_root_normal_form _ (entry_is_root o))
+           (model_follows_skeleton_all_flags_lemma o a c k r h d co tk)).
+Qed.
+Print Assumptions model_follows_inlined_source_skeleton_all_flags.
+
+(* the link used above, for every table: what raccepts accepts, naccepts accepts *)
+Theorem skeleton_checker_paths_are_nx_paths :
+  forall (t : table) (inp : list kind) (fuel : nat) (entry : string) (env : string -> bool),
+    fuel <= S DEPTH ->
+    raccepts (resolve_table t) inp fuel (index_of entry t) env = true ->
+    naccepts (inline_root t entry) inp fuel env = true.
+Proof. exact raccepts_naccepts. Qed.
+Print Assumptions skeleton_checker_paths_are_nx_paths.
+
+Example skeleton_nx_rejects_reordered :
+  naccepts (inline_root expected "Install.RunWithContext")
+           [DHistory; KcExisting false; KcCreate; DCreate; KcWait; DUpdate] 6
+           (env_of (mkFlags false false false false 0 true false false false 0)) = false.
+Proof. exact nx_rejects_reordered. Qed.
+Print Assumptions skeleton_nx_rejects_reordered.
 
 Theorem rexpected_is_expected : rexpected = resolve_table expected.
 Proof. exact rexpected_is. Qed.
